@@ -6,10 +6,12 @@
 //! index in the input; it is stored in the record's `contract_addr`.
 use crate::util::*;
 use bignumber::Decimal256;
-use cosmwasm_std::testing::{MockApi, MockStorage};
-use cosmwasm_std::Api;
-use halo_factory::state::{pair_key, read_pairs, PAIRS};
+use cosmwasm_std::testing::{mock_env, MockApi, MockQuerier, MockStorage};
+use cosmwasm_std::{from_binary, Api, OwnedDeps, StdResult};
+use halo_factory::state::{pair_key, PAIRS};
 use haloswap::asset::{AssetInfo, AssetInfoRaw, CreatePairRequirements, PairInfo, PairInfoRaw};
+use haloswap::factory::{PairsResponse, QueryMsg};
+use std::marker::PhantomData;
 
 const SEP: u64 = 999_999;
 const LOOP: u64 = 888_888;
@@ -66,8 +68,30 @@ fn build(api: &MockApi, t: &[&str], n: usize) -> (MockStorage, Vec<[AssetInfoRaw
     (st, entries)
 }
 
-fn to_raw_pair(api: &MockApi, infos: &[AssetInfo; 2]) -> [AssetInfoRaw; 2] {
-    [infos[0].to_raw(api).unwrap(), infos[1].to_raw(api).unwrap()]
+/// One page of the listing, asked the way a client asks: through the factory's `query` entry point with the
+/// continuation cursor in its human form.
+fn page_via_query(
+    st: MockStorage,
+    cursor: Option<[AssetInfo; 2]>,
+    limit: Option<u32>,
+) -> (MockStorage, StdResult<Vec<PairInfo>>) {
+    let deps = OwnedDeps {
+        storage: st,
+        api: MockApi::default(),
+        querier: MockQuerier::default(),
+        custom_query_type: PhantomData,
+    };
+    let r = halo_factory::contract::query(
+        deps.as_ref(),
+        mock_env(),
+        QueryMsg::Pairs {
+            start_after: cursor,
+            limit,
+        },
+    )
+    .and_then(|b| from_binary::<PairsResponse>(&b))
+    .map(|r| r.pairs);
+    (deps.storage, r)
 }
 
 pub fn run(t: &[&str]) -> String {
@@ -80,12 +104,14 @@ pub fn run(t: &[&str]) -> String {
             "reg_walk" => {
                 let limit: Option<u32> = if t[1] == "-" { None } else { Some(t[1].parse().unwrap()) };
                 let n: usize = t[2].parse().unwrap();
-                let (st, _) = build(&api, &t[3..], n);
+                let (mut st, _) = build(&api, &t[3..], n);
                 let mut out = vec![];
-                let mut cursor: Option<[AssetInfoRaw; 2]> = None;
+                let mut cursor: Option<[AssetInfo; 2]> = None;
                 let mut pages = 0;
                 loop {
-                    let page = match read_pairs(&st, &api, cursor.clone(), limit) {
+                    let (st2, r) = page_via_query(st, cursor.clone(), limit);
+                    st = st2;
+                    let page = match r {
                         Ok(p) => p,
                         Err(_) => return "err std".to_string(),
                     };
@@ -96,7 +122,7 @@ pub fn run(t: &[&str]) -> String {
                         out.push(index_of(p) as u64);
                     }
                     out.push(SEP);
-                    cursor = Some(to_raw_pair(&api, &page.last().unwrap().asset_infos));
+                    cursor = Some(page.last().unwrap().asset_infos.clone());
                     pages += 1;
                     if pages > 200 {
                         out.push(LOOP);
@@ -117,13 +143,14 @@ pub fn run(t: &[&str]) -> String {
                     None
                 } else {
                     let e = entries[t[2].parse::<usize>().unwrap()].clone();
+                    let h = [e[0].to_normal(&api).unwrap(), e[1].to_normal(&api).unwrap()];
                     if t[3] == "1" {
-                        Some([e[1].clone(), e[0].clone()])
+                        Some([h[1].clone(), h[0].clone()])
                     } else {
-                        Some(e)
+                        Some(h)
                     }
                 };
-                match read_pairs(&st, &api, cursor, limit) {
+                match page_via_query(st, cursor, limit).1 {
                     Ok(page) => format!(
                         "ok {}",
                         page.iter()
